@@ -24,13 +24,6 @@ Section More.
   Definition det (ops : ops_t) (k : nat) : Prop :=
     forall j oi, anc ops j k -> nth_error ops j = Some oi -> f_rand F (o_op oi) = None.
 
-  Lemma Forall2_fun {A B} (f : A -> option B) l xs ys :
-    Forall2 (fun a x => f a = Some x) l xs -> Forall2 (fun a y => f a = Some y) l ys -> xs = ys.
-  Proof.
-    intros H1. revert ys. induction H1 as [|a x l xs Hx _ IH]; intros ys H2; inversion H2; subst; auto.
-    f_equal; [congruence|auto].
-  Qed.
-
   Lemma det_values (ops1 ops2 : ops_t) e1 e2 : sv ops1 = sv ops2 -> ginv F ops1 -> ginv F ops2 ->
     allcomp ops1 e1 -> allcomp ops2 e2 -> e_pval e1 = e_pval e2 ->
     forall k oi1 oi2, nth_error ops1 k = Some oi1 -> nth_error ops2 k = Some oi2 ->
